@@ -179,6 +179,10 @@ def run_case(doc: dict) -> dict:
             _nested_identity(doc, base_vals, ref_args, res, rts, viol)
         if doc.get("cache_ints"):
             _cached_history(doc, base_vals, ref_args, rkw, res, rts, viol)
+        if doc["nest"] == 2:
+            _mapped_nest(doc, base_vals, res, rts, viol)
+        if doc["nest"] == 1:
+            _failing_sibling(doc, base_vals, res, rts, viol)
         held = dict(base_vals)  # what the caller holds: survives a pause
         answered: set[str] = set()
         pauses = resumes = 0
@@ -295,6 +299,65 @@ def run_case(doc: dict) -> dict:
     res["sig"] = digest([res["shape"], canon(inp), res["sched"]], 8)
     res["hdigest"] = hist_digest(rts)
     return res
+
+
+def _failing_sibling(doc, base_vals, res, rts, viol) -> None:
+    """A nested graph that pauses and an independent sibling node that raises are ready in the same step: the outcome must not
+    depend on the order of the node list (and nothing of a raised error may be dropped silently in one order only)."""
+    g = doc["graph"]
+    first = copy.deepcopy(next(nd for nd in g["nodes"] if nd["kind"] == "interrupt"))
+    first["script"] = ["pause"]
+    first.pop("emit", None)
+    inner = {"kind": "graph", "name": "FH1", "graph": {"name": "FH1", "nodes": [first], "order": [0]}}
+    sib = {"kind": "fn", "name": "fsib", "params": [{"name": "fsx"}], "outs": ["fso"]}
+    vals = {"fsx": 1}
+    for q in first["params"]:
+        gn = first.get("rename_inputs", {}).get(q["name"], q["name"])
+        vals[gn] = base_vals.get(gn, 7)
+    outs = []
+    for order in ([0, 1], [1, 0]):
+        spec = {"name": "top", "nodes": [inner, sib], "order": order}
+        try:
+            w = run_world(copy.deepcopy(spec), dict(vals), mode="async", cfg=doc["cfg"], faults=[{"kind": "raise", "node": "fsib", "inv": 0, "fid": 0, "when": "before"}], run_kwargs={"error_handling": "continue"})
+        except BuildError:
+            return
+        rts.append(w["rt"])
+        res["runs"] += 1
+        o = w["out"]
+        outs.append([o["status"], o["error"] and o["error"][0], (o["pause"] or {}).get("node_name")])
+    res["stats"]["probe_failing_sibling_beside_pausing_nested_graph"] = 1
+    if outs[0] != outs[1]:
+        viol.append(("nested:outcome_depends_on_node_order_when_a_sibling_fails_beside_a_pausing_nested_graph", {"nested_graph_listed_first": outs[0], "sibling_listed_first": outs[1]}))
+
+
+def _mapped_nest(doc, base_vals, res, rts, viol) -> None:
+    """The first interrupt two graph levels below a MAPPING node (map_over its first input): when a handler returns None the call
+    must not end COMPLETED - it pauses, or the configuration is rejected (interrupts are declared incompatible with map execution)."""
+    g = doc["graph"]
+    first = copy.deepcopy(next(nd for nd in g["nodes"] if nd["kind"] == "interrupt"))
+    first["script"] = ["pause", "pause", "pause"]
+    first.pop("emit", None)
+    pin = first.get("rename_inputs", {}).get(first["params"][0]["name"], first["params"][0]["name"])
+    inner = {"kind": "graph", "name": "MH1", "graph": {"name": "MH1", "nodes": [first], "order": [0]}}
+    mid = {"name": "MH2", "nodes": [inner], "order": [0]}
+    spec = {"name": "top", "nodes": [{"kind": "graph", "name": "MH2", "graph": mid, "map_over": [pin], "map_mode": "zip", "error_handling": "raise"}], "order": [0]}
+    vals = {}
+    for q in first["params"]:
+        gn = first.get("rename_inputs", {}).get(q["name"], q["name"])
+        vals[gn] = base_vals.get(gn, 7)
+    vals[pin] = [vals[pin], vals[pin]]
+    try:
+        w = run_world(spec, vals, mode="async", cfg=doc["cfg"])
+    except BuildError:
+        res["stats"]["mapped_nested_interrupt_rejected_at_construction"] = 1
+        return
+    rts.append(w["rt"])
+    res["runs"] += 1
+    out = w["out"]
+    paused_handlers = sum(1 for h in w["rt"].history if h["k"] == "handler_pause")
+    res["stats"]["probe_interrupt_below_mapping_node"] = 1
+    if paused_handlers and out["status"] == "completed":
+        viol.append(("mapped_nest:handler_returned_none_but_the_run_completed", {"values": out["values"], "handlers_that_returned_none": paused_handlers}))
 
 
 def _cached_history(doc, base_vals, ref_args, rkw, res, rts, viol) -> None:
